@@ -98,14 +98,15 @@ func runDedup(t *testing.T, script []string, gen *hx.Rand) (*caseResult, []strin
 			f := strings.Fields(line)
 			n := func(i int) int { v, _ := strconv.Atoi(f[i]); return v }
 			switch {
-			case f[0] == "d.call" && len(f) >= 3:
+			case (f[0] == "d.call" && len(f) >= 3) || ((f[0] == "d.calls" || f[0] == "d.callc") && len(f) == 3):
+				// d.call: ReplicateMultiple; d.calls / d.callc: ReplicateSingle / ReplicateComposite of one object
 				var ks []int
 				for i := 2; i < len(f); i++ {
 					ks = append(ks, n(i))
 				}
 				ks = sortedUnique(ks)
 				w.phase++
-				c := w.spawn(ks, f[1] == "1")
+				c := w.spawn(map[string]string{"d.call": "m", "d.calls": "s", "d.callc": "c"}[f[0]], ks, f[1] == "1")
 				w.emit(fmt.Sprintf("d.call %s %s", f[1], showKeys(ks)), fmt.Sprintf("ok %d", c.id))
 				after(line, -1)
 			case f[0] == "d.cancel" && len(f) == 2:
@@ -254,6 +255,9 @@ func genDedupAction(r *hx.Rand, w *world, fid *int) string {
 			cn := 0
 			if r.Chance(1, 10) {
 				cn = 1
+			}
+			if r.Chance(1, 3) {
+				return fmt.Sprintf("%s %d %d", []string{"d.calls", "d.callc"}[r.Intn(2)], cn, ks[0])
 			}
 			return fmt.Sprintf("d.call %d %s", cn, showKeys(ks))
 		case x < 55:
